@@ -188,7 +188,7 @@ def register(reg):
                            'self.parser_state.parse_conf.parse_table.states is self.parser_state.parse_conf.states'],
                  ensures=['result.table is %s' % T, 'result.state == %s' % TOPS])
     reg.specfun('ISTERM', [('name', 'str')], 'bool', doc='the symbol of that name is a terminal of the grammar')
-    reg.contract('lark.parsers.lalr_interactive_parser:InteractiveParser.accepts', serves=['C13', 'C08'], kind='method',
+    reg.contract('lark.parsers.lalr_interactive_parser:InteractiveParser.accepts', serves=['C13', 'C08', 'C10'], kind='method',
                  params={'self': 'InteractiveParser'}, returns='set[str]',
                  types={'@set105': 'set[str]'},
                  requires=PRE + ['len(self.parser_state.state_stack) == len(self.parser_state.value_stack) + 1',
